@@ -7,8 +7,8 @@ import PonyVerif.Model.Cascade
   requests:
     {"op":"run","schema":..,"objs":..,"deletes":[id,..]}
        -> {"steps":[{"err":null|"ConstraintError",..,"agree":bool,"nodangling":bool,"objs":[..]}],"db":{..},"fk":bool}
-    {"op":"bulk","schema":..,"objs":..,"rows":[id,..]}     (bulk DELETE of these rows on the committed image of `objs`)
-       -> {"refused":bool,"db":{..}|null,"fk":bool}
+    {"op":"bulk","schema":..,"objs":..,"stmts":[[id,..],..]}     (bulk DELETE statements, one after the other, on the committed image of `objs`)
+       -> {"steps":[{"refused":bool,"db":{..},"fk":bool},..]}
     {"op":"linked","pairs":[{"a":{"coll":..,"req":..,"casc":null|bool},"b":{..}},..]} -> {"res":[{"ok":bool,"ca":bool,"cb":bool},..]}
     {"op":"ondelete","schema":..} -> {"res":[[rel,side,"CASCADE"|"SET NULL"|null],..]}   (attributes holding a column)
 -/
@@ -124,11 +124,13 @@ def handle (j : Json) : Except String Json := do
   | "bulk" =>
       let sch : Schema ← (← argArr j "schema").mapM relOfJson
       let objs ← (← argArr j "objs").mapM objOfJson
-      let rows ← natsOfJson (← j.getObjVal? "rows")
-      let db := commit sch (storeOf objs)
-      match dbDelete sch db rows with
-      | none => pure (Json.mkObj [("refused", toJson true), ("db", Json.null), ("fk", toJson (checkFk sch db))])
-      | some db' => pure (Json.mkObj [("refused", toJson false), ("db", dumpDb sch db'), ("fk", toJson (checkFk sch db'))])
+      let stmts ← (← argArr j "stmts").mapM natsOfJson
+      let (_, outs) := stmts.foldl (fun (acc : Db × List Json) rows =>
+        match dbDelete sch acc.1 rows with
+        | none => (acc.1, Json.mkObj [("refused", toJson true), ("db", dumpDb sch acc.1), ("fk", toJson (checkFk sch acc.1))] :: acc.2)
+        | some db' => (db', Json.mkObj [("refused", toJson false), ("db", dumpDb sch db'), ("fk", toJson (checkFk sch db'))] :: acc.2))
+        (commit sch (storeOf objs), [])
+      pure (Json.mkObj [("steps", .arr outs.reverse.toArray)])
   | "linked" =>
       let ps ← (← argArr j "pairs").mapM fun p => do
         let a ← declOfJson (← p.getObjVal? "a")
